@@ -481,6 +481,22 @@ func TestRetentionWindow(t *testing.T) {
 		for i := 0; i < ballast; i++ {
 			repo.IsDuplicate(context.Background(), fmt.Sprintf("ballast-%d", i))
 		}
+		// other keys keep arriving all the time (a busy deduplicator): the key of this case expires all the same
+		if rapid.IntRange(0, 2).Draw(t, "freshKeysKeepArriving") == 0 {
+			stopTraffic := make(chan struct{})
+			defer close(stopTraffic)
+			caseNo := expiryCases.Load()
+			go func() {
+				for i := 0; ; i++ {
+					select {
+					case <-stopTraffic:
+						return
+					case <-time.After(window / 4):
+					}
+					repo.IsDuplicate(context.Background(), fmt.Sprintf("traffic-%d-%d", caseNo, i))
+				}
+			}()
+		}
 		// random phase relative to the clean-up ticker
 		time.Sleep(time.Duration(rapid.IntRange(0, windowMs).Draw(t, "phaseMs")) * time.Millisecond)
 		payload := []byte(fmt.Sprintf("retention-%d", expiryCases.Load()))
